@@ -131,6 +131,12 @@ def run(ck):
     ck.assumptions.append("the four Flocq/stdlib axioms appear only because the shared evaluator mentions binary64 "
                           "operations; the integer proofs do not use them")
 
+    if ck.thorough and not res["failure"]:
+        ok, axioms, tail = vv.coqchk("Properties_C14")
+        ck.coverage["coqchk"] = {"ok": ok, "axioms": axioms}
+        if not ok:
+            ck.add_unshown("coqchk", "Properties_C14", tail)
+
     harness = vv.build_harness("h_prims")
     model = vv.ocaml_model("Prims")
 
